@@ -2,7 +2,7 @@
    Statements only; every proof is [exact <lemma>] with Print Assumptions beneath. *)
 From Coq Require Import NArith ZArith List.
 From BU Require Import Base.Exn Base.Bytes Gen.Consts Model.Base58 Model.Base58Xmr Model.Codecs Model.IntBytes.
-From BU Require Lemmas.Base58 Lemmas.ConstsOk Lemmas.XmrConstsOk Lemmas.IntBytes.
+From BU Require Lemmas.Base58 Lemmas.ConstsOk Lemmas.XmrConstsOk Lemmas.IntBytes Lemmas.ConvertBitsOk.
 Import ListNotations.
 Open Scope N_scope.
 
@@ -193,3 +193,39 @@ Theorem hex_decode_total : forall s,
   (forall e, IntBytes.from_hex_string s = Err e -> e = ValueError).
 Proof. intros s. split; [exact (Lemmas.IntBytes.unhexlify_ok_iff s)|exact (Lemmas.IntBytes.unhexlify_err s)]. Qed.
 Print Assumptions hex_decode_total.
+
+(* ------------------------------------------------------------------ Bech32 8 <-> 5 bit regrouping *)
+
+(* ConvertFromBase32 (ConvertToBase32 b) = b for every byte string; the 5-bit form has only 5-bit symbols *)
+Theorem convertbits_8_5_8 : forall b, bytes_ok b ->
+  exists l, Codecs.to_base32 b = Ok l /\ Forall (fun d => d < 32) l /\ Codecs.from_base32 l = Ok b.
+Proof. exact ConvertBitsOk.convertbits_8_5_8. Qed.
+Print Assumptions convertbits_8_5_8.
+
+(* canonicity: the strict direction accepts only the padded regrouping of its result *)
+Theorem convertbits_5_8_5 : forall l b, Codecs.from_base32 l = Ok b ->
+  bytes_ok b /\ Forall (fun d => d < 32) l /\ Codecs.to_base32 b = Ok l.
+Proof. exact ConvertBitsOk.from_base32_canonical. Qed.
+Print Assumptions convertbits_5_8_5.
+
+(* strict mode rejects exactly over-long (>= 5 bits) or non-zero padding (and symbols >= 32), with ValueError *)
+Theorem convertbits_strict_accepts_iff : forall l, Forall (fun d => d < 32) l ->
+  ((exists b, Codecs.from_base32 l = Ok b) <->
+   (5 * N.of_nat (length l)) mod 8 < 5 /\
+   Radix.from_be 32 l mod 2 ^ ((5 * N.of_nat (length l)) mod 8) = 0).
+Proof. exact ConvertBitsOk.from_base32_accepts_iff. Qed.
+Print Assumptions convertbits_strict_accepts_iff.
+
+Example convertbits_strict_accepts_ex : exists b, Codecs.from_base32 [31; 28] = Ok b.
+Proof. exists [255]. vm_compute. reflexivity. Qed.
+Print Assumptions convertbits_strict_accepts_ex.
+
+Theorem convertbits_errors : forall l,
+  (forall e, Codecs.from_base32 l = Err e -> e = ValueError) /\
+  (~ Forall (fun d => d < 32) l -> Codecs.from_base32 l = Err ValueError) /\
+  (~ bytes_ok l -> Codecs.to_base32 l = Err ValueError).
+Proof.
+  intros l. split; [exact (ConvertBitsOk.from_base32_err l)|].
+  split; [exact (ConvertBitsOk.from_base32_range l)|exact (ConvertBitsOk.to_base32_range l)].
+Qed.
+Print Assumptions convertbits_errors.
